@@ -43,13 +43,13 @@ class Ob:
 
 
 class Ctx:
-    def __init__(self, prop, facts_dir, tier="quick"):
+    def __init__(self, prop, facts_dir, tier="quick", program=None, callgraph=None):
         self.prop = prop
         self.tier = tier
-        self.P = Program(facts_dir)
+        self.P = program if program is not None else Program(facts_dir)
         self.obs = []
         self.info = []
-        self._cg = None
+        self._cg = callgraph
         self._la = {}
         self._cfg = {}
         self._or = {}
